@@ -42,6 +42,7 @@ use super::*;
 // il::ProgramLocation (lib/il/location.rs) is only a payload of falcon::Error here: opaque stand-in
 #[verifier::external_body] pub struct ProgramLocation { _p: () }
 //@ include units/C15/il_core.rs
+//@ include units/C15/block_edit.rs
 proof fn vf_canary_il() ensures false {}
 } // mod il
 
